@@ -1047,6 +1047,7 @@ pub fn handle(st: &mut State, line: &str) -> String {
             "SDN" => crate::stream::decode_n_notime(st, &mut t),
             "SDP" => crate::stream::decode_n_parked(st, &mut t),
             "SDX" => crate::stream::decode_n_hopping(st, &mut t),
+            "SD2" => crate::stream::decode_two(st, &mut t),
             "CL" => crate::client::run(st, &mut t),
             "TLS" => crate::net::tls_cell(st, &mut t),
             "TLSPLAIN" => crate::net::tls_plain(st, &mut t),
